@@ -91,6 +91,9 @@ func Start(bin string, env ...string) (*Server, error) {
 func (s *Server) start() error {
 	cmd := exec.Command(s.Bin)
 	cmd.Env = append(append(os.Environ(), "PIGEON_VERIF_SERVE=1"), s.Env...)
+	if st, err := os.Stat("/dev/shm"); err == nil && st.IsDir() {
+		cmd.Env = append(cmd.Env, "TMPDIR=/dev/shm")
+	}
 	cmd.Stderr = os.Stderr
 	in, err := cmd.StdinPipe()
 	if err != nil {
@@ -110,8 +113,14 @@ func (s *Server) start() error {
 func (s *Server) Close() {
 	if s.cmd != nil {
 		s.in.Close()
-		s.cmd.Process.Kill()
-		s.cmd.Wait()
+		done := make(chan struct{})
+		go func() { s.cmd.Wait(); close(done) }()
+		select {
+		case <-done:
+		case <-time.After(500 * time.Millisecond):
+			s.cmd.Process.Kill()
+			<-done
+		}
 		s.cmd = nil
 	}
 }
